@@ -142,20 +142,16 @@ class Formatter(FormatterInterface):
         lhs = self(oper.lhs)
         rhs = self(oper.rhs)
 
-        # Apply parentheses
-        if oper.lhs.precedence >= oper.precedence:
-            lhs = f"({lhs})"
-        if oper.rhs.precedence >= oper.precedence:
-            rhs = f"({rhs})"
-
         # Python chains comparisons (a < b == c means a < b and b == c),
         # so a comparison inside a comparison always needs parentheses
         comparisons = (L.EQ, L.NE, L.LT, L.GT, L.LE, L.GE)
-        if isinstance(oper, comparisons):
-            if isinstance(oper.lhs, comparisons) and not lhs.startswith("("):
-                lhs = f"({lhs})"
-            if isinstance(oper.rhs, comparisons) and not rhs.startswith("("):
-                rhs = f"({rhs})"
+        chained = isinstance(oper, comparisons)
+
+        # Apply parentheses
+        if oper.lhs.precedence >= oper.precedence or (chained and isinstance(oper.lhs, comparisons)):
+            lhs = f"({lhs})"
+        if oper.rhs.precedence >= oper.precedence or (chained and isinstance(oper.rhs, comparisons)):
+            rhs = f"({rhs})"
 
         # Return combined string
         return f"{lhs} {oper.op} {rhs}"
